@@ -11,7 +11,9 @@ package main
 //     HasReserveStmt()): no other file is skipped ("already parsed as the layout of a page", …).
 
 import (
+	"fmt"
 	"go/token"
+	"os"
 	"go/types"
 	"sort"
 	"strings"
@@ -159,6 +161,13 @@ func (m *Model) RunLoadAll(s *Sink, rule string) {
 				}
 			}
 			ci := m.newPassInfoOpts(func(c ssa.CallInstruction) bool { sc := c.Common().StaticCallee(); return sc != nil && lks[sc] }, func(*ssa.Call) bool { return false }, modFns, edgePoint)
+			if os.Getenv("TWDEBUG") != "" {
+				for _, f := range modFns {
+					if ci.may[f] || ci.always[f] || ci.onOK[f] {
+						fmt.Fprintf(os.Stderr, "loadall %s: %s may=%v always=%v onOK=%v\n", what, fnKey(f), ci.may[f], ci.always[f], ci.onOK[f])
+					}
+				}
+			}
 			target := st.mu.Block()
 			idx := 0
 			for i, in := range target.Instrs {
